@@ -30,6 +30,11 @@ func lookupIntrinsic(fn *ssa.Function, name string) intrinsicFn {
 			return f
 		}
 	}
+	// the colour-logging front end installed by the command line is a stub:
+	// log text is recorded by the log model whatever its level and format
+	if strings.HasPrefix(name, "github.com/comail/colog.") && fn.Signature.Results().Len() == 0 {
+		return noop
+	}
 	// generic instantiations: strip type arguments
 	if i := strings.Index(name, "["); i >= 0 {
 		if f, ok := intrinsics[name[:i]]; ok {
@@ -432,11 +437,21 @@ func init() {
 	}
 
 	// ---- unicode / utf8 ----
+	// a symbolic first byte that may be non-ASCII: no shortcut, the real
+	// utf8.DecodeRune body is interpreted (forks by sequence class)
 	I["unicode/utf8.DecodeRune"] = func(fr *frame, args []value) (value, bool) {
-		return fr.decodeRune(args[0].([]value)), true
+		b := args[0].([]value)
+		if fr.symNonASCIIHead(b) {
+			return nil, false
+		}
+		return fr.decodeRune(b), true
 	}
 	I["unicode/utf8.DecodeRuneInString"] = func(fr *frame, args []value) (value, bool) {
-		return fr.decodeRune(strBytes(args[0])), true
+		b := strBytes(args[0])
+		if fr.symNonASCIIHead(b) {
+			return nil, false
+		}
+		return fr.decodeRune(b), true
 	}
 	I["unicode/utf8.RuneLen"] = func(fr *frame, args []value) (value, bool) {
 		if r, ok := args[0].(int32); ok {
@@ -626,6 +641,32 @@ func (fr *frame) indexSub(s, sub []value) value {
 		}
 	}
 	return -1
+}
+
+// symNonASCIIHead reports (forking if undecided) whether the sequence starts
+// with a symbolic byte >= 0x80, or with a concrete lead byte followed by
+// symbolic continuation bytes.
+func (fr *frame) symNonASCIIHead(b []value) bool {
+	if len(b) == 0 {
+		return false
+	}
+	switch e := b[0].(type) {
+	case symv:
+		if e.t.hi < 0x80 {
+			return false
+		}
+		return !fr.branch(fr.i.st.Ult(e.t, fr.i.st.Const(8, 0x80)))
+	case uint8:
+		if e < utf8.RuneSelf {
+			return false
+		}
+		for j := 1; j < len(b) && j < 4; j++ {
+			if _, sym := b[j].(symv); sym {
+				return true
+			}
+		}
+	}
+	return false
 }
 
 // decodeRune models utf8.DecodeRune on a byte sequence whose first byte may
